@@ -90,6 +90,7 @@ type Flow struct {
 	w        *World
 	MaxDepth int
 	sumMemo  map[sumKey]APSet
+	sumCalls map[sumKey]map[*ssa.Call]bool
 	sumBusy  map[sumKey]bool
 	callsMem map[ssa.Value]map[*ssa.Call]bool
 }
@@ -100,7 +101,7 @@ type sumKey struct {
 }
 
 func NewFlow(w *World) *Flow {
-	return &Flow{w: w, MaxDepth: 5, sumMemo: map[sumKey]APSet{}, sumBusy: map[sumKey]bool{}}
+	return &Flow{w: w, MaxDepth: 5, sumMemo: map[sumKey]APSet{}, sumCalls: map[sumKey]map[*ssa.Call]bool{}, sumBusy: map[sumKey]bool{}}
 }
 
 type flowCtx struct {
@@ -622,7 +623,10 @@ func isPointer(t types.Type) bool {
 // enter applies the callee's summary (result resIdx; -1 = all results) to the arguments.
 func (c *flowCtx) enter(fn *ssa.Function, args []ssa.Value, resIdx int, call *ssa.Call) APSet {
 	out := APSet{}
-	sum := c.fl.summary(fn, resIdx, c.depth+1)
+	sum, sumCalls := c.fl.summary(fn, resIdx, c.depth+1)
+	for k := range sumCalls {
+		c.calls[k] = true
+	}
 	argPaths := map[int]APSet{}
 	for a := range sum {
 		switch r := a.Root.(type) {
@@ -657,13 +661,13 @@ func (c *flowCtx) enter(fn *ssa.Function, args []ssa.Value, resIdx int, call *ss
 
 // summary: access paths (rooted at fn's own parameters, globals, opaque calls)
 // influencing result resIdx of fn.
-func (fl *Flow) summary(fn *ssa.Function, resIdx int, depth int) APSet {
+func (fl *Flow) summary(fn *ssa.Function, resIdx int, depth int) (APSet, map[*ssa.Call]bool) {
 	k := sumKey{fn, resIdx}
 	if s, ok := fl.sumMemo[k]; ok {
-		return s
+		return s, fl.sumCalls[k]
 	}
 	if fl.sumBusy[k] {
-		return APSet{}
+		return APSet{}, nil
 	}
 	fl.sumBusy[k] = true
 	defer delete(fl.sumBusy, k)
@@ -687,8 +691,9 @@ func (fl *Flow) summary(fn *ssa.Function, resIdx int, depth int) APSet {
 	// the result is context-free except for the depth cut-off; key on depth<=2 to stay precise
 	if depth <= 2 {
 		fl.sumMemo[k] = out
+		fl.sumCalls[k] = c.calls
 	}
-	return out
+	return out, c.calls
 }
 
 // ---- small helpers used by rules ------------------------------------------------
